@@ -50,6 +50,12 @@ func compareBlocks(out string) []string {
 	return bs
 }
 
+func sortedLines(s string) string {
+	ls := strings.Split(s, "\n")
+	sort.Strings(ls)
+	return strings.Join(ls, "\n")
+}
+
 func c08Check(env *core.Env, cc core.Case) core.Verdict {
 	c := cc.(*c08Case)
 	sandbox := env.TempDir()
@@ -67,13 +73,23 @@ func c08Check(env *core.Env, cc core.Case) core.Verdict {
 		root := filepath.Join(sandbox, name, "crs")
 		_ = os.MkdirAll(filepath.Join(root, "regex-assembly", "include"), 0o755)
 		_ = os.MkdirAll(filepath.Join(root, "regex-assembly", "exclude"), 0o755)
-		return root, tree.Write(root)
+		if err := tree.Write(root); err != nil {
+			return root, err
+		}
+		if len(targets)%4 == 1 && !strings.Contains(c.Leak, "symlink") {
+			// the assembly directory is kept elsewhere and linked into the checkout
+			if err := os.Rename(filepath.Join(root, "regex-assembly"), filepath.Join(root, "assembly-kept-elsewhere")); err != nil {
+				return root, err
+			}
+			return root, os.Symlink("assembly-kept-elsewhere", filepath.Join(root, "regex-assembly"))
+		}
+		return root, nil
 	}
 	snap := func(root string) sut.Snapshot {
 		s := sut.Snap(root)
 		if c.Cmd == "format" {
 			for p := range s {
-				if strings.HasPrefix(p, "regex-assembly/exclude/") {
+				if strings.HasPrefix(p, "regex-assembly/exclude/") || strings.HasPrefix(p, "assembly-kept-elsewhere/exclude/") {
 					delete(s, p) // exclude files cannot be addressed by a single invocation
 				}
 			}
@@ -171,6 +187,12 @@ func c08Check(env *core.Env, cc core.Case) core.Verdict {
 			}
 			if c.Leak == "stash" {
 				continue // --all stops at the failing unit; the reports before it are compared below only when nothing fails
+			}
+			// whatever the wording of the reports: what --all prints about a rule is what the single invocations print about it
+			for _, t := range targets {
+				if x, y := about(string(ra_.Stdout), t.ID), about(strings.Join(outs, "\n"), t.ID); sortedLines(x) != sortedLines(y) {
+					return core.Viol("all-differs-from-singles:"+c.Cmd, "compare --all and the single invocations print different lines about rule %s (order %v)\n--all:\n%s\nsingles:\n%s", t.ID, order, x, y)
+				}
 			}
 			a, b := compareBlocks(string(ra_.Stdout)), compareBlocks(strings.Join(outs, "\n"))
 			if !eqStrings(a, b) {
